@@ -174,7 +174,7 @@ or a skipped segment followed by a reported token.",
         enum_cases(),
         |c: &LabelCase| check_tokens(&to_ref(c)),
     );
-    let n = rep.n(5000, 200000);
+    let n = rep.n(50000, 1000000);
     rep.run_prop(
         "random-labels",
         "random annotated sentences up to 60 characters with run-structured label vectors; same \
@@ -183,7 +183,7 @@ oracle and non-triviality rule",
         || gen::annotated_sentence(60, 3, true),
         |rs: &RefSentence| check_tokens(rs),
     );
-    let n = rep.n(600, 20000);
+    let n = rep.n(6000, 60000);
     rep.run_prop(
         "after-predict",
         "generated models x texts: after predict no label is unknown and the tokens partition the \
